@@ -135,6 +135,12 @@ META = {
         "level_text": "Generated action sequences x DAG states (never run, finished, failed, running, canceled, crashed) x argument classes through httptest; every action judged by comparing complete dumps of histories, definitions, flags and the spawn log.",
         "level_note": "Trusted: the dump covers everything the property speaks about (history, definitions, suspend flags, spawned commands); the in-process agent as producer of realistic histories.",
     },
+    "C08": {
+        "engine": "crashkit", "design_ref": "DESIGN.md section 3 C08",
+        "technique": "property-based testing (rapid) of the real agent in-process on the scripted executor with trace-based live-status oracle and a concurrent poller, plus fault injection on the real binary: SIGKILL at generated / enumerated system-call boundaries (ptrace supervisor) with a marker-file truth oracle, a daemon tick and a restart",
+        "level_text": "Live: generated DAGs x completion schedules with status queries at every decision point and continuous polling. Crash: kill points over the start-up, execution and shutdown of `blackdagger start` (sampled quick, enumerated thorough) for three DAG shapes with and without prior history.",
+        "level_note": "Trusted: the scripted executor's trace as ground truth for the live part; marker files as ground truth for the crash part; the supervisor's call classification.",
+    },
 }
 
 NOT_APPLICABLE = {}
